@@ -39,5 +39,80 @@ def u_stdag_get_width():
                               "compute_max_edge_antichain is an uninterpreted function of its weight function"])
 
 
+def u_stdigraph_get_width():
+    """stDiGraph.get_width on REAL stDiGraph objects of small digraphs (concrete scenarios, the antichain routine replaced by an uninterpreted recorder):
+    the weight function handed to the antichain routine is, for every ignore list tried,
+        bundle between two SCCs            ->  its multiplicity minus the number of (distinct) ignored edges in it
+        node edge of a non-trivial SCC     ->  0 if every member edge is ignored, else 1;   node edge of a trivial SCC -> 1
+    the result is the routine's value for that function; the cached width is read / written only when nothing is ignored."""
+    import z3
+    GRAPHS = [
+        [("s", "a"), ("a", "b"), ("b", "a"), ("a", "t"), ("b", "t")],
+        [("s", "a"), ("a", "b"), ("b", "c"), ("c", "a"), ("a", "t"), ("b", "t"), ("c", "t")],
+        [("s", "a"), ("s", "b"), ("a", "b"), ("b", "a"), ("a", "x"), ("x", "x"), ("x", "t"), ("b", "t")],
+        [("s", "a"), ("a", "t"), ("s", "t")],
+    ]
+
+    def h(c, f):
+        import itertools
+        import networkx as nx
+        import flowpaths as fp
+        for gi, E in enumerate(GRAPHS):
+            g = nx.DiGraph(E)
+            scc_of = {}
+            for i, comp in enumerate(nx.strongly_connected_components(g)):
+                for v in comp:
+                    scc_of[v] = i
+            ign_lists = [None, []] + [[e] for e in E] + [list(p) for p in itertools.combinations(E, 2)]
+            if gi == 1:
+                ign_lists.append([("a", "t"), ("b", "t"), ("c", "t")])
+                ign_lists.append([("a", "b"), ("b", "c"), ("c", "a")])
+            for cached in (False, True):
+                for ign in ign_lists:
+                    H = fp.stDiGraph(g)
+                    calls = []
+
+                    def rec(get_antichain=False, weight_function=None, calls=calls):
+                        calls.append(dict(weight_function))
+                        return ("ANTICHAIN", len(calls))
+                    H._condensation_expanded.compute_max_edge_antichain = rec
+                    if cached:
+                        H.condensation_width = "CACHED"
+                    tag = "graph %d,cache=%s,ignore=%s" % (gi, "set" if cached else "empty", ign)
+                    r = f(H, None if ign is None else [tuple(e) for e in ign])
+                    if not ign:
+                        if cached:
+                            c.prove("post[%s]:cached-width-returned,-nothing-recomputed" % tag, z3.BoolVal(r == "CACHED" and not calls), prop=P)
+                            continue
+                        c.prove("post[%s]:the-full-width-is-cached" % tag, z3.BoolVal(H.condensation_width == r), prop=P)
+                    else:
+                        c.prove("post[%s]:cache-neither-read-nor-written" % tag, z3.BoolVal(H.condensation_width == ("CACHED" if cached else None) and r != "CACHED"), prop=P)
+                    ok = len(calls) == 1 and r == ("ANTICHAIN", 1)
+                    c.prove("post[%s]:result=the-antichain-routine's-value-for-one-weight-function" % tag, z3.BoolVal(ok), prop=P)
+                    if not ok:
+                        continue
+                    wf = calls[0]
+                    igs = set(tuple(e) for e in (ign or []))
+                    # specification of the weights, from the graph alone; the names of the expanded edges are taken from the object (C17 / A2), their MEANING from the spec
+                    want = {}
+                    C = H._condensation
+                    for (c1, c2) in C.edges():
+                        bundle = [(u, v) for (u, v) in H.edges() if C.graph["mapping"][u] == c1 and C.graph["mapping"][v] == c2]
+                        want[H._condensation_edge_to_condensation_expanded_edge(c1, c2)] = len(bundle) - len([e for e in bundle if e in igs])
+                    for node in C.nodes():
+                        members = [(u, v) for (u, v) in H.edges() if C.graph["mapping"][u] == node and C.graph["mapping"][v] == node]
+                        want[(str(node), H._expanded(node))] = 0 if (members and all(e in igs for e in members)) else 1
+                    got = {e: w for e, w in wf.items() if e in want or w != 0}
+                    c.prove("post[%s]:weights=bundle-multiplicity-minus-ignored-edges;-node-edge-0-iff-every-member-edge-of-a-non-trivial-SCC-is-ignored" % tag,
+                            z3.BoolVal(got == want), prop=P, info=dict(got=str(sorted(got.items()))[:300], want=str(sorted(want.items()))[:300]))
+    import copy as _copy
+    from vf.replay import replay_stdigraph_width
+    return Unit("flowpaths/stdigraph.py", "stDiGraph.get_width", h, globs=dict(utils=U, copy=_copy), props=[P], replay=replay_stdigraph_width,
+                abstractions=["concrete scenario runs: 4 small digraphs (2-cycle and 3-cycle with bundles of 2 / 3 parallel inter-SCC edges, a self-loop SCC, a DAG) x (no list, empty list, every "
+                              "single edge, every pair of edges, two triples) x (cache empty / set), on real stDiGraph objects; bounded in the scenario, not in the antichain routine",
+                              "compute_max_edge_antichain is replaced by a recorder (uninterpreted); the names of the expanded edges are the object's own"],
+                assumptions=["A2 networkx condensation: mapping / bundles as read from the object", "A4 (not proved): width = maximum weighted antichain of the expanded condensation"])
+
+
 def all_units():
-    return [u_stdag_get_width()]
+    return [u_stdag_get_width(), u_stdigraph_get_width()]
